@@ -487,6 +487,150 @@ Definition not_an_entry (dec : string -> option (string * option string))
   dec c = None \/
   exists b d, dec c = Some (b, d) /\ (parse b = PErr \/ exists dd, d = Some dd /\ parse dd = PErr).
 
+(* ---------- vocabulary added by the theorem audit (docs/audit/C15.md) ---------- *)
+
+(* an operation that may change the file of its url: a Set that gets as far as
+   file.WriteFile, or an operation of the environment.  A Get and a Set of a nil
+   bundle / a bundle with a nil base touch nothing. *)
+Definition touches (o : op) : bool :=
+  match o with
+  | OSet _ _ (Some (Some _, _)) | OPut _ _ | ODel _ | OMkdir _ => true
+  | _ => false
+  end.
+
+(* an operation that may put something at the key of its url *)
+Definition stores (o : op) : bool :=
+  match o with
+  | OSet _ _ (Some (Some _, _)) | OPut _ _ | OMkdir _ => true
+  | _ => false
+  end.
+
+(* o leaves the file of u alone: it is on another url (however similar), or it is
+   a Get, a Set of a nil bundle or a Set of a bundle without base *)
+Definition idle_on (u : string) (o : op) : Prop := op_url o <> u \/ touches o = false.
+
+(* operations of the API (store / read), none of the environment *)
+Definition is_api (o : op) : bool :=
+  match o with OSet _ _ _ | OGet _ _ => true | _ => false end.
+
+(* the path opened by Get and handed to file.WriteFile by Set *)
+Definition entry_path (sha : string -> string) (u : string) : string := join root (file_name sha u).
+
+(* directory and last element of a path: split at the last '/' (None = no '/') *)
+Fixpoint dir_base (s : string) : option string * string :=
+  match s with
+  | EmptyString => (None, EmptyString)
+  | String a r =>
+      match dir_base r with
+      | (Some d, b) => (Some (String a d), b)
+      | (None, b) => if Ascii.eqb a "/" then (Some EmptyString, b) else (None, String a b)
+      end
+  end.
+
+(* ---------- a decoder of the canonical entry text (what Set writes) ----------
+   encoding/json.Unmarshal stays an oracle of the model ([dec]); this decoder
+   only shows that the text written by [enc_json] determines the stored bytes,
+   i.e. that the hypothesis [roundtrip_on enc_json dec] can be met for every
+   history at once (C15_roundtrip_satisfiable). *)
+Definition unb64char (c : ascii) : option N :=
+  let n := N_of_ascii c in
+  if ((65 <=? n) && (n <=? 90))%N then Some (n - 65)%N
+  else if ((97 <=? n) && (n <=? 122))%N then Some (n - 71)%N
+  else if ((48 <=? n) && (n <=? 57))%N then Some (n + 4)%N
+  else if (n =? 43)%N then Some 62%N
+  else if (n =? 47)%N then Some 63%N
+  else None.
+
+Definition bit (n : N) (k : N) : bool := N.testbit n k.
+
+Definition unsext (c : ascii) : option (bool * bool * bool * bool * bool * bool) :=
+  match unb64char c with
+  | Some n => Some (bit n 5, bit n 4, bit n 3, bit n 2, bit n 1, bit n 0)
+  | None => None
+  end.
+
+Fixpoint b64dec (s : string) : option string :=
+  match s with
+  | EmptyString => Some EmptyString
+  | String c1 (String c2 (String c3 (String c4 r))) =>
+      match unsext c1, unsext c2 with
+      | Some (a7, a6, a5, a4, a3, a2), Some (a1, a0, b7, b6, b5, b4) =>
+          let A := Ascii a0 a1 a2 a3 a4 a5 a6 a7 in
+          if Ascii.eqb c3 pad then
+            if Ascii.eqb c4 pad && negb (b7 || b6 || b5 || b4) then
+              match r with EmptyString => Some (String A EmptyString) | _ => None end
+            else None
+          else
+            match unsext c3 with
+            | Some (b3, b2, b1, b0, c7, c6) =>
+                let Bb := Ascii b0 b1 b2 b3 b4 b5 b6 b7 in
+                if Ascii.eqb c4 pad then
+                  if negb (c7 || c6) then
+                    match r with EmptyString => Some (String A (String Bb EmptyString)) | _ => None end
+                  else None
+                else
+                  match unsext c4 with
+                  | Some (c5, c4', c3', c2', c1', c0') =>
+                      let C := Ascii c0' c1' c2' c3' c4' c5 c6 c7 in
+                      match b64dec r with
+                      | Some t => Some (String A (String Bb (String C t)))
+                      | None => None
+                      end
+                  | None => None
+                  end
+            | None => None
+            end
+      | _, _ => None
+      end
+  | _ => None
+  end.
+
+(* strip a prefix *)
+Fixpoint strip (p s : string) : option string :=
+  match p, s with
+  | EmptyString, _ => Some s
+  | String a p', String b s' => if Ascii.eqb a b then strip p' s' else None
+  | _, _ => None
+  end.
+
+(* a JSON value of the entry: null | "<base64>"; gives the bytes and the rest.
+   The flag tells null from a string. *)
+Definition dec_value (s : string) : option (bool * string * string) :=
+  match strip "null" s with
+  | Some r => Some (false, EmptyString, r)
+  | None =>
+      match strip """" s with
+      | Some r =>
+          match cut_byte """" r with
+          | Some (t, r') => match b64dec t with Some x => Some (true, x, r') | None => None end
+          | None => None
+          end
+      | None => None
+      end
+  end.
+
+Definition dec_canon (c : string) : option (string * option string) :=
+  match strip "{""baseCRL"":" c with
+  | Some r =>
+      match dec_value r with
+      | Some (_, b, r1) =>
+          match r1 with
+          | "}" => Some (b, None)
+          | _ =>
+              match strip ",""deltaCRL"":" r1 with
+              | Some r2 =>
+                  match dec_value r2 with
+                  | Some (true, d, "}") => Some (b, Some d)
+                  | _ => None
+                  end
+              | None => None
+              end
+          end
+      | None => None
+      end
+  | None => None
+  end.
+
 (* ---------- boolean equalities ---------- *)
 Definition res_eqb (a b : res) : bool :=
   match a, b with
